@@ -130,4 +130,281 @@ Proof.
     + apply runs_else_stop; auto.
 Qed.
 
+(* ---------- sequence ---------- *)
+Definition seq_post (s : pst) (rb : res) : res :=
+  match rb with
+  | ROk s' => lift ROk (checkpoint_ok s')
+  | RErr s' => lift RErr (restore_st (set_queue (set_pos s' (pos s)) (vtruncate (length (queue s)) (queue s'))))
+  | RPanic k => RPanic k
+  | ROutOfFuel => ROutOfFuel
+  end.
+Lemma exec_seq f p s : limit s = None -> exec cfg E (S f) (PSequence p) s = seq_post s (exec cfg E f p (checkpoint s)).
+Proof. intros L. cbn [exec]. rewrite (inc_call_none s L). reflexivity. Qed.
+Lemma seq_post_nofuel s rb : rb <> ROutOfFuel -> seq_post s rb <> ROutOfFuel.
+Proof.
+  destruct rb as [s'|s'|k|]; cbn; intros H; try congruence.
+  - destruct (checkpoint_ok s'); cbn; discriminate.
+  - destruct (restore_st _); cbn; discriminate.
+Qed.
+Lemma runs_seq_inv p s r : limit s = None -> runs (PSequence p) s r -> exists rb, runs p (checkpoint s) rb /\ r = seq_post s rb.
+Proof.
+  intros L [N [f Ef]]. destruct f as [|f]; [cbn in Ef; congruence|]. rewrite (exec_seq f p s L) in Ef.
+  exists (exec cfg E f p (checkpoint s)). split; auto. split; eauto.
+  intros X. rewrite X in Ef. cbn in Ef. congruence.
+Qed.
+Lemma runs_seq p s rb : limit s = None -> runs p (checkpoint s) rb -> runs (PSequence p) s (seq_post s rb).
+Proof.
+  intros L [N [f Ef]]. split; [now apply seq_post_nofuel|]. exists (S f). rewrite (exec_seq f p s L), Ef. reflexivity.
+Qed.
+
+Lemma vtruncate_vtruncate {A} (n m : nat) (l : list A) : n <= m -> vtruncate n (vtruncate m l) = vtruncate n l.
+Proof.
+  intros H. unfold vtruncate.
+  destruct (Nat.ltb_spec m (length l)) as [Hm|Hm]; [|reflexivity].
+  rewrite skipn_length. replace (length l - (length l - m)) with m by lia.
+  destruct (Nat.ltb_spec n m) as [Hn|Hn], (Nat.ltb_spec n (length l)) as [Hl|Hl]; try lia.
+  - rewrite Proofs.skipn_skipn'. f_equal. lia.
+  - replace n with m by lia. reflexivity.
+Qed.
+
+Lemma frame_qlen s s' : frame s s' -> length (queue s) <= length (queue s').
+Proof.
+  intros F. destruct (f_queue _ _ F) as [new Eq]. apply (f_equal (@length _)) in Eq.
+  rewrite app_length, !untagq_length in Eq. lia.
+Qed.
+
+Lemma srel_checkpoint_r s t : srel s t -> srel s (checkpoint t).
+Proof.
+  intros (st & -> & C & W & Ia & [b Ib] & L). exists (snapshot st). unfold checkpoint. fields.
+  repeat split; auto. exists (ssnapshot b). now apply inv_snapshot.
+Qed.
+
+Lemma srel_self_l s t : srel s t -> srel s s.
+Proof. intros R. destruct (r_is _ _ R) as [a Ia]. eapply srel_refl; eauto; [eapply r_wf|eapply r_lim]; eauto. Qed.
+
+(* sequence(X ; Y) ~ sequence(X ; sequence(Y)) *)
+Lemma seq_absorb A X Y : eqv A (PSequence (PAndThen X Y)) (PSequence (PAndThen X (PSequence Y))).
+Proof.
+  intros s t r R HA H.
+  pose proof (r_wf _ _ R) as W. pose proof (srel_wft _ _ R) as Wt.
+  destruct (r_is _ _ R) as [a Ia]. destruct (r_it _ _ R) as [b Ib].
+  pose proof (r_lim _ _ R) as L. pose proof (srel_limt _ _ R) as L2.
+  destruct (runs_seq_inv _ _ _ L H) as (rb & Hb & ->).
+  pose proof (srel_checkpoint _ _ R) as R1.
+  assert (A1 : amode A (checkpoint s)) by (eapply amode_frame; [exact HA|reflexivity]).
+  assert (W1 : wf (checkpoint s)) by exact W. assert (W2 : wf (checkpoint t)) by exact Wt.
+  pose proof (inv_snapshot Ia) as I1. pose proof (inv_snapshot Ib) as I2.
+  change (snapshot (stack s)) with (stack (checkpoint s)) in I1. change (snapshot (stack t)) with (stack (checkpoint t)) in I2.
+  assert (Cab : cur b = cur a).
+  { destruct R as (st & -> & C & _). fields_in Ib. rewrite <- (inv_cache' _ _ Ia), <- (inv_cache' _ _ Ib). exact C. }
+  destruct (runs_then_inv _ _ _ _ Hb) as [(s1 & HX & HY)|[HX Hn]].
+  - destruct (eqv_refl A X _ _ _ R1 A1 HX) as (rx' & HX' & RX).
+    destruct rx' as [t1| | |]; cbn in RX; try contradiction.
+    pose proof (runs_post _ _ _ _ W1 I1 HX) as PX. pose proof (runs_post _ _ _ _ W2 I2 HX') as PX'.
+    cbn in PX, PX'. destruct PX as (FX & Ws1 & a1 & Ia1 & Sa1), PX' as (FX' & Wt1 & b1 & Ib1 & Sb1).
+    assert (A2 : amode A s1) by (eapply frame_amode; eauto).
+    destruct (eqv_refl A Y _ _ _ (srel_checkpoint_r _ _ RX) A2 HY) as (ry' & HY' & RY).
+    pose proof (srel_limt _ _ RX) as L1.
+    pose proof (runs_seq _ _ _ L1 HY') as T1.
+    pose proof (runs_then_ok _ _ _ _ _ HX' T1) as T2.
+    pose proof (runs_seq _ _ _ L2 T2) as T3.
+    eexists; split; [exact T3|].
+    eapply (rrel_of_core s a t b); [exact L|eapply runs_post; eauto|eapply runs_post; eauto|].
+    pose proof (runs_post _ _ _ _ Ws1 Ia1 HY) as PY.
+    assert (Wc : wf (checkpoint t1)) by exact Wt1.
+    pose proof (inv_snapshot Ib1) as Ic. change (snapshot (stack t1)) with (stack (checkpoint t1)) in Ic.
+    pose proof (runs_post _ _ _ _ Wc Ic HY') as PY'.
+    destruct rb as [sy|sy|k|], ry' as [ty|ty|k'|]; cbn in RY; try contradiction; cbn [seq_post].
+    + (* Y succeeds *)
+      cbn in PY'. destruct PY' as (_ & _ & b2 & Ib2 & Sb2).
+      unfold checkpoint_ok at 2. destruct (inv_clear Ib2) as (stc & Ec & Ic2). rewrite Ec. fields.
+      apply clear_core; [left; reflexivity|].
+      destruct RY as (sty & -> & Cy & Wy & Iy & _ & Ly). fields_in Ib2. fields.
+      exists stc. repeat split; auto; [|exists (sclear b2); exact Ic2].
+      rewrite (inv_cache' _ _ Ic2). cbn. rewrite <- (inv_cache' _ _ Ib2). exact Cy.
+    + (* Y fails: the inner restore, then the outer one *)
+      cbn in PY, PY'. destruct PY as (FY & _ & a2 & Ia2 & Sa2), PY' as (_ & _ & b2 & Ib2 & Sb2).
+      destruct RY as (sty & -> & Cy & _). fields_in Ib2.
+      unfold restore_st at 2. fields. destruct (inv_restore Ib2) as (str & Er & Ir). rewrite Er. fields.
+      destruct R as (st0 & -> & C0 & _). destruct RX as (st1 & -> & C1 & _). fields.
+      cbn [seq_post]. fields. rewrite vtruncate_vtruncate by (exact (frame_qlen _ _ FX)).
+      change (set_queue (set_pos (set_stack (set_queue (set_pos (sw sty sy) ?p1) ?q1) str) ?p2) ?q2)
+        with (sw str (set_queue (set_pos sy p2) q2)).
+      eapply (restore_core RErr (or_intror (fun x => eq_refl))) with (a := a2) (b := srestore b2); fields; auto.
+      * rewrite Sa2, Sa1. cbn. reflexivity.
+      * unfold srestore. rewrite Sb2. cbn. rewrite Sb1. cbn. rewrite Cab. reflexivity.
+    + exact RY.
+  - (* X does not succeed: both sides stop there *)
+    destruct (eqv_refl A X _ _ _ R1 A1 HX) as (rx' & HX' & RX).
+    assert (Hn' : forall t1, rx' <> ROk t1) by (intros t1 ->; destruct rb; cbn in RX; try contradiction; eapply Hn; eauto).
+    pose proof (runs_then_stop _ (PSequence Y) _ _ HX' Hn') as T2.
+    pose proof (runs_seq _ _ _ L2 T2) as T3.
+    eexists; split; [exact T3|].
+    (* the same as for sequence(X) on both sides *)
+    pose proof (runs_seq _ _ _ L HX) as S3.
+    destruct (eqv_refl A (PSequence X) _ _ _ R HA S3) as (r' & Hr' & Rr).
+    rewrite (runs_det _ _ _ _ (runs_seq _ _ _ L2 HX') Hr'). exact Rr.
+Qed.
+
+(* ---------- optional, repeat ---------- *)
+Definition opt_post (rb : res) : res := match rb with ROk s' | RErr s' => ROk s' | RPanic k => RPanic k | ROutOfFuel => ROutOfFuel end.
+Lemma runs_opt p s rb : limit s = None -> runs p s rb -> runs (POptional p) s (opt_post rb).
+Proof.
+  intros L [N [f Ef]]. split; [destruct rb; cbn; congruence|]. exists (S f). cbn [exec]. rewrite (inc_call_none s L), Ef. reflexivity.
+Qed.
+Lemma runs_rep p s r : limit s = None -> runs (PRepeatLoop p) s r -> runs (PRepeat p) s r.
+Proof. intros L [N [f Ef]]. split; auto. exists (S f). cbn [exec]. rewrite (inc_call_none s L). exact Ef. Qed.
+Lemma runs_loop_ok p s s1 r : runs p s (ROk s1) -> runs (PRepeatLoop p) s1 r -> runs (PRepeatLoop p) s r.
+Proof.
+  intros [_ [f1 E1]] [N [f2 E2]]. split; auto. exists (S (Nat.max f1 f2)). cbn [exec].
+  rewrite (exec_mono cfg E f1 (Nat.max f1 f2) p s ltac:(lia)) by (rewrite E1; discriminate). rewrite E1.
+  rewrite (exec_mono cfg E f2 (Nat.max f1 f2) _ s1 ltac:(lia)) by (rewrite E2; exact N). exact E2.
+Qed.
+Lemma runs_loop_err p s s' : runs p s (RErr s') -> runs (PRepeatLoop p) s (ROk s').
+Proof. intros [_ [f1 E1]]. split; [discriminate|]. exists (S f1). cbn [exec]. rewrite E1. reflexivity. Qed.
+Lemma runs_loop_panic p s k : runs p s (RPanic k) -> runs (PRepeatLoop p) s (RPanic k).
+Proof. intros [_ [f1 E1]]. split; [discriminate|]. exists (S f1). cbn [exec]. rewrite E1. reflexivity. Qed.
+
+Lemma set_pos_id s : set_pos s (pos s) = s.
+Proof. destruct s; reflexivity. Qed.
+Lemma set_queue_id s : set_queue s (queue s) = s.
+Proof. destruct s; reflexivity. Qed.
+Lemma vtruncate_all {A} (l : list A) n : n = length l -> vtruncate n l = l.
+Proof. intros ->. unfold vtruncate. now rewrite Nat.ltb_irrefl. Qed.
+
+Lemma srel_clear_r s t : srel s t -> exists t', checkpoint_ok t = Some t' /\ srel s t'.
+Proof.
+  intros (st & -> & C & W & Ia & [b Ib] & L). unfold checkpoint_ok. fields.
+  destruct (inv_clear Ib) as (stc & Ec & Ic). rewrite Ec. fields. eexists; split; [reflexivity|].
+  exists stc. repeat split; auto; [|exists (sclear b); exact Ic].
+  rewrite (inv_cache' _ _ Ic). cbn. rewrite <- (inv_cache' _ _ Ib). exact C.
+Qed.
+
+Definition skip_id (k : prog) : Prop := forall s, atomicity s <> NonAtomic -> runs k s (ROk s).
+Definition fails_clean (x : prog) : Prop :=
+  forall s s' a, wf s -> Inv (stack s) a -> limit s = None -> runs x s (RErr s') ->
+    pos s' = pos s /\ length (queue s') = length (queue s) /\ cache (stack s') = cache (stack s).
+
+Section RepAtomic.
+Variable x k : prog.
+Hypothesis Hk : skip_id k.
+Hypothesis Hx : fails_clean x.
+Let body' := PSequence (PAndThen k x).
+
+(* one later iteration on the right for one iteration on the left *)
+Lemma iter_right s t rx : srel s t -> atomicity s <> NonAtomic -> runs x s rx ->
+  exists rb, runs body' t rb /\
+    match rx with
+    | ROk s1 => exists t1, rb = ROk t1 /\ srel s1 t1
+    | RErr s' => exists tr, rb = RErr tr /\ srel s' tr
+    | RPanic kk => rb = RPanic kk
+    | ROutOfFuel => False
+    end.
+Proof.
+  intros R HA HX.
+  pose proof (r_wf _ _ R) as W. pose proof (srel_wft _ _ R) as Wt.
+  destruct (r_is _ _ R) as [a Ia]. destruct (r_it _ _ R) as [b Ib].
+  pose proof (r_lim _ _ R) as L. pose proof (srel_limt _ _ R) as L2.
+  assert (Ac : atomicity (checkpoint t) <> NonAtomic) by (cbn; rewrite (srel_at _ _ R); exact HA).
+  pose proof (Hk _ Ac) as K1.
+  destruct (eqv_refl true x _ _ _ (srel_checkpoint_r _ _ R) (fun _ => HA) HX) as (rx' & HX' & RX).
+  assert (Wc : wf (checkpoint t)) by exact Wt.
+  pose proof (inv_snapshot Ib) as Ic. change (snapshot (stack t)) with (stack (checkpoint t)) in Ic.
+  pose proof (runs_then_ok _ _ _ _ _ K1 HX') as T1.
+  pose proof (runs_seq _ _ _ L2 T1) as T2.
+  exists (seq_post t rx'). split; [exact T2|].
+  pose proof (runs_post _ _ _ _ Wc Ic HX') as PX'.
+  destruct rx as [s1|s'|kk|], rx' as [t1|t'|kk'|]; cbn in RX; try contradiction; cbn [seq_post].
+  - destruct (srel_clear_r _ _ RX) as (tc & Ec & Rc). rewrite Ec. cbn. eauto.
+  - pose proof (runs_post _ _ _ _ W Ia HX) as PX. cbn in PX, PX'.
+    destruct PX as (FX & Ws' & a' & Ia' & Sa'), PX' as (_ & _ & b' & Ib' & Sb').
+    destruct (Hx _ _ _ W Ia L HX) as (Cp & Cq & Cs).
+    destruct RX as (st' & -> & C' & _). destruct R as (st & -> & C & _). fields_in Ib'. fields_in Ib.
+    unfold restore_st. fields. destruct (inv_restore Ib') as (str & Er & Ir). rewrite Er. fields.
+    eexists; split; [reflexivity|].
+    rewrite <- Cp, <- Cq, (vtruncate_all (queue s') _ eq_refl).
+    change (set_queue (set_pos (sw st' s') (pos s')) (queue s')) with (sw st' (set_queue (set_pos s' (pos s')) (queue s'))).
+    rewrite set_pos_id, set_queue_id. fields.
+    exists str. repeat split; auto; [|exists a'; exact Ia'|exists (srestore b'); exact Ir|rewrite (f_lim _ _ FX); exact L].
+    rewrite (inv_cache' _ _ Ir). unfold srestore. rewrite Sb'. cbn.
+    rewrite <- (inv_cache' _ _ Ib), C. symmetry. exact Cs.
+  - subst kk'. reflexivity.
+Qed.
+
+Lemma loop_right : forall f s t, srel s t -> atomicity s <> NonAtomic ->
+  exec cfg E f (PRepeatLoop x) s <> ROutOfFuel ->
+  exists r', runs (PRepeatLoop body') t r' /\ rrel (exec cfg E f (PRepeatLoop x) s) r'.
+Proof.
+  induction f as [|f IH]; intros s t R HA Hne; [exfalso; apply Hne; reflexivity|].
+  cbn [exec] in Hne |- *.
+  destruct (exec cfg E f x s) as [s1|s'|kk|] eqn:Ex.
+  - assert (HX : runs x s (ROk s1)) by (split; [discriminate|eauto]).
+    destruct (iter_right _ _ _ R HA HX) as (rb & Hb & t1 & -> & R1).
+    assert (A1 : atomicity s1 <> NonAtomic).
+    { destruct (r_is _ _ R) as [a Ia]. pose proof (runs_post _ _ _ _ (r_wf _ _ R) Ia HX) as P. cbn in P. destruct P as (F & _).
+      rewrite (f_at _ _ F). exact HA. }
+    destruct (IH _ _ R1 A1 Hne) as (r' & Hr' & Rr). exists r'. split; auto. eapply runs_loop_ok; eauto.
+  - assert (HX : runs x s (RErr s')) by (split; [discriminate|eauto]).
+    destruct (iter_right _ _ _ R HA HX) as (rb & Hb & tr & -> & R1).
+    exists (ROk tr). split; [now apply runs_loop_err|exact R1].
+  - assert (HX : runs x s (RPanic kk)) by (split; [discriminate|eauto]).
+    destruct (iter_right _ _ _ R HA HX) as (rb & Hb & ->).
+    exists (RPanic kk). split; [now apply runs_loop_panic|reflexivity].
+  - congruence.
+Qed.
+
+(* in atomic mode:  repeat(x) ~ sequence(optional(x ; repeat(sequence(skip ; x)))) *)
+Lemma rep_atomic : eqv true (PRepeat x) (PSequence (POptional (PAndThen x (PRepeat body')))).
+Proof.
+  intros s t r R HA0 [N [f Ef]]. assert (HA : atomicity s <> NonAtomic) by (apply HA0; reflexivity).
+  pose proof (r_wf _ _ R) as W. pose proof (srel_wft _ _ R) as Wt.
+  destruct (r_is _ _ R) as [a Ia]. destruct (r_it _ _ R) as [b Ib].
+  pose proof (r_lim _ _ R) as L. pose proof (srel_limt _ _ R) as L2.
+  destruct f as [|f]; [cbn in Ef; congruence|]. cbn [exec] in Ef. rewrite (inc_call_none s L) in Ef.
+  destruct f as [|f]; [cbn in Ef; congruence|]. cbn [exec] in Ef.
+  pose proof (srel_checkpoint_r _ _ R) as Rc.
+  assert (Lc : limit (checkpoint t) = None) by exact L2.
+  destruct (exec cfg E f x s) as [s1|s'|kk|] eqn:Ex.
+  - (* first iteration succeeds: the rest is the loop *)
+    assert (HX : runs x s (ROk s1)) by (split; [discriminate|eauto]).
+    destruct (eqv_refl true x _ _ _ Rc (fun _ => HA) HX) as (rx' & HX' & RX).
+    destruct rx' as [t1| | |]; cbn in RX; try contradiction.
+    assert (A1 : atomicity s1 <> NonAtomic).
+    { pose proof (runs_post _ _ _ _ W Ia HX) as P. cbn in P. destruct P as (F & _). rewrite (f_at _ _ F). exact HA. }
+    assert (Hne : exec cfg E f (PRepeatLoop x) s1 <> ROutOfFuel) by congruence.
+    destruct (loop_right f _ _ RX A1 Hne) as (r' & Hr' & Rr). rewrite Ef in Rr.
+    pose proof (runs_rep _ _ _ (srel_limt _ _ RX) Hr') as T1.
+    pose proof (runs_then_ok _ _ _ _ _ HX' T1) as T2.
+    pose proof (runs_opt _ _ _ Lc T2) as T3.
+    pose proof (runs_seq _ _ _ L2 T3) as T4.
+    eexists; split; [exact T4|].
+    destruct r as [sz|sz|kz|], r' as [tz|tz|kz'|]; cbn in Rr; try contradiction; cbn [opt_post seq_post].
+    + destruct (srel_clear_r _ _ Rr) as (tc & Ec & Rc'). rewrite Ec. exact Rc'.
+    + destruct (srel_clear_r _ _ Rr) as (tc & Ec & Rc'). rewrite Ec.
+      (* a loop never returns Err *) exfalso. clear - Ef. revert s1 Ef. induction f as [|f IH]; intros s1 Ef; [discriminate|].
+      cbn [exec] in Ef. destruct (exec cfg E f x s1); try discriminate. eapply IH; eauto.
+    + exact Rr.
+  - (* first iteration fails: nothing matched *)
+    assert (HX : runs x s (RErr s')) by (split; [discriminate|eauto]).
+    destruct (eqv_refl true x _ _ _ Rc (fun _ => HA) HX) as (rx' & HX' & RX).
+    destruct rx' as [|t'| |]; cbn in RX; try contradiction.
+    assert (Hn : forall t1, RErr t' <> ROk t1) by discriminate.
+    pose proof (runs_then_stop _ (PRepeat body') _ _ HX' Hn) as T2.
+    pose proof (runs_opt _ _ _ Lc T2) as T3.
+    pose proof (runs_seq _ _ _ L2 T3) as T4.
+    eexists; split; [exact T4|]. subst r. cbn [opt_post seq_post].
+    destruct (srel_clear_r _ _ RX) as (tc & Ec & Rc'). rewrite Ec. exact Rc'.
+  - assert (HX : runs x s (RPanic kk)) by (split; [discriminate|eauto]).
+    destruct (eqv_refl true x _ _ _ Rc (fun _ => HA) HX) as (rx' & HX' & RX).
+    destruct rx' as [| |kk'|]; cbn in RX; try contradiction. subst kk'.
+    assert (Hn : forall t1, RPanic kk <> ROk t1) by discriminate.
+    pose proof (runs_then_stop _ (PRepeat body') _ _ HX' Hn) as T2.
+    pose proof (runs_opt _ _ _ Lc T2) as T3.
+    pose proof (runs_seq _ _ _ L2 T3) as T4.
+    eexists; split; [exact T4|]. subst r. reflexivity.
+  - congruence.
+Qed.
+
+End RepAtomic.
+
 End Laws.
